@@ -337,6 +337,104 @@ def part_options(fx):
                 C.nontrivial()
 
 
+# ---------------------------------------------------------------- part 2b: claim values
+def c_strtol(text):
+    """what strtol(text, NULL, 0) yields on a 64-bit long"""
+    t = text.strip()
+    neg = t.startswith("-")
+    if t[:1] in "+-":
+        t = t[1:]
+    if t[:2].lower() == "0x":
+        base, digits, t = 16, "0123456789abcdef", t[2:]
+    elif t[:1] == "0":
+        base, digits = 8, "01234567"
+    else:
+        base, digits = 10, "0123456789"
+    n = 0
+    for ch in t.lower():
+        if ch not in digits:
+            break
+        n = n * base + digits.index(ch)
+    n = -n if neg else n
+    return max(-2**63, min(2**63 - 1, n))
+
+
+INT_VALUES = ["0", "1", "-1", "7", "0x10", "010", "65536", "2147483647", "2147483648", "-2147483648", "-2147483649", "4294967295", "4294967296", "4102444800",
+              "253402300799", "9007199254740993", "9223372036854775807", "-9223372036854775808"]
+BOOL_VALUES = [("true", True), ("t", True), ("1", True), ("yes", True), ("false", False), ("f", False), ("F", False), ("0", False), ("False", False)]
+STR_VALUES = ["x", "alice", "a b", "ünï", "p" * 300, "{\"a\":1}", "with\\back\"quote"]
+
+
+def part_claims(fx):
+    """every documented claim type and a ladder of values: the payload carries the value asked for and jwt-verify accepts the token"""
+    def round_trip(label, gen_args, want, key="claim-values"):
+        args = [tool("jwt-generate"), "-q", "-k", fx["oct_alg"]] + gen_args
+        rc, out, err = run(args)
+        tok = out.decode().strip().splitlines()[-1] if out.strip() else ""
+        C.obs(rc == 0)
+        if rc != 0 or tok.count(".") != 2:
+            C.violation("%s|jwt-generate-fails" % key, "%s -> exit %d, stderr %s" % (" ".join(gen_args), rc, err.decode(errors="replace")[-300:]))
+            return
+        try:
+            payload = json.loads(b64d(tok.split(".")[1]))
+        except Exception as ex:
+            C.violation("%s|token-undecodable" % key, "%s: payload does not decode: %s" % (" ".join(gen_args), ex))
+            return
+        for k, v in want.items():
+            got = payload.get(k)
+            if got != v or type(got) is not type(v):
+                C.violation("%s|%s|payload-differs" % (key, label), "%s: claim %s is %r, asked for %r" % (" ".join(gen_args)[:200], k, got, v))
+        for via in (False, True):
+            vrc = verify_list(fx, [tok], via)
+            C.obs(vrc == 0)
+            if vrc != 0:
+                C.violation("%s|%s|jwt-verify-rejects" % (key, label), "token generated with %s is rejected (%s): exit %d, payload %s" %
+                            (" ".join(gen_args)[:200], "stdin" if via else "argv", vrc, str(payload)[:200]))
+
+    now = int(time.time())
+    for longform in (0, 1):
+        for eq in (False, True):
+            if longform == 0 and eq:
+                continue
+            sp = lambda val: spell(GEN_OPTS["claim"], longform, val, eq=eq)
+            how = "--claim=" if eq else ("--claim" if longform else "-c")
+            for v in INT_VALUES:
+                if C.case("integer claim %s given with %s: neutral name" % (v, how)):
+                    round_trip("integer", sp("i:lvl=" + v), {"lvl": c_strtol(v)})
+                    C.nontrivial()
+                n = c_strtol(v)
+                # as a validity bound: a future exp, a past nbf -- the token is within its validity either way
+                if n > now + 86400 and C.case("integer claim %s given with %s: as exp" % (v, how)):
+                    round_trip("integer-exp", sp("i:exp=" + v), {"exp": n})
+                    C.nontrivial()
+                if n < now - 86400 and C.case("integer claim %s given with %s: as nbf" % (v, how)):
+                    round_trip("integer-nbf", sp("i:nbf=" + v), {"nbf": n})
+                    C.nontrivial()
+            for v, b in BOOL_VALUES:
+                if C.case("boolean claim %s given with %s" % (v, how)):
+                    round_trip("boolean", sp("b:adm=" + v), {"adm": b})
+                    C.nontrivial()
+            for v in STR_VALUES:
+                if C.case("string claim of %d characters (%s) given with %s" % (len(v), v[:12], how)):
+                    round_trip("string", sp("s:sub=" + v), {"sub": v})
+                    C.nontrivial()
+    # the same values through -j/--json, alone and next to -c
+    for longform in (0, 1):
+        for v in INT_VALUES:
+            n = c_strtol(v)
+            if not C.case("integer %d inside %s, alone and beside -c" % (n, GEN_OPTS["json"][longform])):
+                continue
+            body = {"lvl": n}
+            if n > now + 86400:
+                body["exp"] = n
+            if n < now - 86400:
+                body["nbf"] = n
+            round_trip("json", spell(GEN_OPTS["json"], longform, json.dumps(body), eq=bool(longform)), body)
+            round_trip("json+claim", spell(GEN_OPTS["json"], longform, json.dumps(body)) + ["-c", "i:other=" + v, "-c", "s:sub=bob"],
+                       dict(body, other=n, sub="bob"))
+            C.nontrivial()
+
+
 # ---------------------------------------------------------------- part 3: key2jwk / jwk2key
 EC_WIDTH = {"P-256": 32, "P-384": 48, "P-521": 66, "secp256k1": 32}
 
@@ -500,6 +598,7 @@ def enumerate_all():
         fx = fixtures(tmp)
         part_exit_status(fx)
         part_options(fx)
+        part_claims(fx)
         part_keys(fx, tmp)
         if getattr(C, "_active", False):
             C.finalize()
